@@ -55,7 +55,7 @@ def octabox(sub=0):
     return dict(bitmap=bitmap, diag=(0, 255, 0, 255), subs=subs)
 
 
-def s_full(version=5, glat_version=3, compress=(), rtl=False, with_collision=True, subboxes=True, glyf=True, extra_attr_glyphs=0, dense_attrs=False, line_ends=False, cmap_edges=False, pass_bits=False, bad_glyph=None, bidi_pass=False, feat_pconstraint=False, just_step=1, many_pseudos=False, no_just=False, just_attached=False, bad_gid_char=None, lb_gid=0, excl_glyph=False):
+def s_full(version=5, glat_version=3, compress=(), rtl=False, with_collision=True, subboxes=True, glyf=True, extra_attr_glyphs=0, dense_attrs=False, line_ends=False, cmap_edges=False, pass_bits=False, bad_glyph=None, bidi_pass=False, feat_pconstraint=False, just_step=1, many_pseudos=False, no_just=False, just_attached=False, bad_gid_char=None, lb_gid=0, excl_glyph=False, cmap12_conflict=False):
     names = ['notdef', 'space', 'a', 'b', 'c', 'd', 'x', 'y', 'z', 'acute', 'grave', 'pseudo', 'astral', 'lig', 'e', 'f']
     glyphs = []
     for i, n in enumerate(names):
@@ -126,7 +126,8 @@ def s_full(version=5, glat_version=3, compress=(), rtl=False, with_collision=Tru
                 aCollision=GA['coll'] if (with_collision and glat_version >= 3) else 0, critFeatures=[0], scriptTags=[tag('latn')], maxPre=1, maxPost=2)
     if lb_gid: silf['lbGID'] = lb_gid          # glyph of the temporary line-end slots (never validated by the loader)
     if bidi_pass: silf['iBidi'] = len(passes)          # the loader wants iBidi >= iJust: the bidi / mirroring step comes after the last pass
-    return dict(glyphs=glyphs, cmap=cm, cmap12=True, num_attrs=34, glat_version=glat_version, gloc_long=True, glyf=glyf, extra_attr_glyphs=extra_attr_glyphs, silf=silf,
+    extra12 = {0x61: G['b'], 0x62: G['c'], 0x63: G['a'], 0x20: G['x']} if cmap12_conflict else None      # BMP entries of the format-12 subtable that DISAGREE with format 4 (format 4 rules the BMP)
+    return dict(glyphs=glyphs, cmap=cm, cmap12=True, cmap12_extra=extra12, num_attrs=34, glat_version=glat_version, gloc_long=True, glyf=glyf, extra_attr_glyphs=extra_attr_glyphs, silf=silf,
                 names={256: 'Feature One', 257: 'Off', 258: 'On', 259: 'Second', 260: 'Zero', 261: 'Two', 262: 'Héllo \U00010400'},
                 names_extra={(256, 0x40C): 'Trait Un'},
                 feats=[(tag('tst1'), 256, 0, [(0, 257), (1, 258)]), (tag('tst2'), 259, 0, [(0, 260), (2, 261)]), (tag('hid'), 262, 0x0800, [(0, 260), (1, 258)]), (tag('any'), 262, 0, [])],
@@ -206,7 +207,7 @@ def write_all(outdir):
     fonts = {'s_min': s_min(), 's_full': s_full(), 's_full_z': s_full(compress=('Silf', 'Glat')), 's_full_v3': s_full(version=3, glat_version=1, with_collision=False),
              's_full_v4': s_full(version=4, glat_version=2, with_collision=False), 's_full_rtl': s_full(rtl=True), 's_full_nosub': s_full(subboxes=False),
              's_full_zs': s_full(compress=('Silf',)), 's_full_zg': s_full(compress=('Glat',)),
-             's_full_noglyf': s_full(glyf=False), 's_full_extra': s_full(extra_attr_glyphs=3), 's_full_dense': s_full(dense_attrs=True), 's_full_le': s_full(line_ends=True), 's_full_le_badlb': s_full(line_ends=True, lb_gid=999), 's_full_cmapedge': s_full(cmap_edges=True), 's_full_pb': s_full(pass_bits=True, feat_pconstraint=True), 's_full_step': s_full(just_step=3), 's_full_pseudos': s_full(many_pseudos=True), 's_full_nojust': s_full(no_just=True), 's_full_jatt': s_full(just_attached=True), 's_full_excl': s_full(excl_glyph=True), 's_full_badgid': s_full(no_just=True, bad_gid_char=0x64), 's_full_rtl_jatt': s_full(rtl=True, just_attached=True), 's_twoclass': s_twoclass(), 's_full_unsorted': s_full(), 's_full_bidi': s_full(bidi_pass=True), 's_full_rtl_bidi': s_full(rtl=True, bidi_pass=True), 's_full_badglyph': s_full(bad_glyph='e'), 's_full_badlast': s_full(bad_glyph='f'), 's_full_rtl_le': s_full(rtl=True, line_ends=True)}
+             's_full_noglyf': s_full(glyf=False), 's_full_extra': s_full(extra_attr_glyphs=3), 's_full_dense': s_full(dense_attrs=True), 's_full_le': s_full(line_ends=True), 's_full_le_badlb': s_full(line_ends=True, lb_gid=999), 's_full_cmapedge': s_full(cmap_edges=True), 's_full_pb': s_full(pass_bits=True, feat_pconstraint=True), 's_full_step': s_full(just_step=3), 's_full_pseudos': s_full(many_pseudos=True), 's_full_nojust': s_full(no_just=True), 's_full_jatt': s_full(just_attached=True), 's_full_excl': s_full(excl_glyph=True), 's_full_c12bmp': s_full(cmap12_conflict=True), 's_full_badgid': s_full(no_just=True, bad_gid_char=0x64), 's_full_rtl_jatt': s_full(rtl=True, just_attached=True), 's_twoclass': s_twoclass(), 's_full_unsorted': s_full(), 's_full_bidi': s_full(bidi_pass=True), 's_full_rtl_bidi': s_full(rtl=True, bidi_pass=True), 's_full_badglyph': s_full(bad_glyph='e'), 's_full_badlast': s_full(bad_glyph='f'), 's_full_rtl_le': s_full(rtl=True, line_ends=True)}
     fonts.update(feat_family())
     index = {}
     for name, spec in fonts.items():
